@@ -309,25 +309,10 @@ impl Entry {
     pub fn as_bytes(&self) -> Vec<u8> {
         let mut bytes = Vec::new();
         for c in &self.checksums {
-            bytes.extend_from_slice(
-                format!(
-                    "{} ({}) = {}\n",
-                    c.digest,
-                    self.filename.display(),
-                    c.hash
-                )
-                .as_bytes(),
-            );
+            push_checksum_line(&mut bytes, &self.filename, c);
         }
         if let Some(size) = self.size {
-            bytes.extend_from_slice(
-                format!(
-                    "Size ({}) = {} bytes\n",
-                    self.filename.display(),
-                    size
-                )
-                .as_bytes(),
-            );
+            push_size_line(&mut bytes, &self.filename, size);
         }
         bytes
     }
@@ -338,6 +323,25 @@ impl Entry {
  * intermediate format, as it doesn't serve any useful function to the user,
  * but is helpful for internally constructing an eventual [`Distinfo`].
  */
+/*
+ * Append "DIGEST (filename) = hash\n".  The filename is written as its raw
+ * bytes, it is not necessarily valid UTF-8.
+ */
+fn push_checksum_line(bytes: &mut Vec<u8>, filename: &Path, c: &Checksum) {
+    bytes.extend_from_slice(format!("{} (", c.digest).as_bytes());
+    bytes.extend_from_slice(filename.as_os_str().as_bytes());
+    bytes.extend_from_slice(format!(") = {}\n", c.hash).as_bytes());
+}
+
+/*
+ * Append "Size (filename) = size bytes\n", see push_checksum_line().
+ */
+fn push_size_line(bytes: &mut Vec<u8>, filename: &Path, size: u64) {
+    bytes.extend_from_slice("Size (".as_bytes());
+    bytes.extend_from_slice(filename.as_os_str().as_bytes());
+    bytes.extend_from_slice(format!(") = {} bytes\n", size).as_bytes());
+}
+
 #[derive(Debug, Eq, PartialEq)]
 enum Line {
     RcsId(OsString),
@@ -684,39 +688,16 @@ impl Distinfo {
 
         for q in self.distfiles.values() {
             for c in &q.checksums {
-                bytes.extend_from_slice(
-                    format!(
-                        "{} ({}) = {}\n",
-                        c.digest,
-                        q.filename.display(),
-                        c.hash
-                    )
-                    .as_bytes(),
-                );
+                push_checksum_line(&mut bytes, &q.filename, c);
             }
             if let Some(size) = q.size {
-                bytes.extend_from_slice(
-                    format!(
-                        "Size ({}) = {} bytes\n",
-                        q.filename.display(),
-                        size
-                    )
-                    .as_bytes(),
-                );
+                push_size_line(&mut bytes, &q.filename, size);
             }
         }
 
         for q in self.patchfiles.values() {
             for c in &q.checksums {
-                bytes.extend_from_slice(
-                    format!(
-                        "{} ({}) = {}\n",
-                        c.digest,
-                        q.filename.display(),
-                        c.hash
-                    )
-                    .as_bytes(),
-                );
+                push_checksum_line(&mut bytes, &q.filename, c);
             }
         }
 
